@@ -153,6 +153,71 @@ def register(op):
         fresh()
         return [keys, first, rel, arr]
 
+    @op("c10_names")
+    def _(arg):
+        """Names are not part of the canonical form of complexes, macrostates and reactions.  Several sessions in one
+        process: in each session objects of one kind are requested under USER-CHOSEN names (or None: automatic name) in
+        given registries -- the same object may be called differently in the base class and in the subclass, a name may
+        denote another object in the other registry or in a later session (the objects of a session are released before
+        the next one starts; the registries are NOT cleared, only garbage collected).  Within a session every ordered pair
+        is observed: operators, hashes, membership in a set, size of the set, dictionary lookup.
+        arg = ["names", kind, sessions]; session = [[spec, name, class index, use-as-set-member-first], ...]
+        (macrostates: name = None or the index of the member whose name is used)
+        returns per session [keys, names, included indices, rel] with rel[i][j] = [==, !=, <=, >=, hash==, in, len, lookup]"""
+        _, kind, sessions = arg
+        fresh()
+        def session(sess):
+            objs, keys, incl = [], [], []
+            cn = {}                                     # complexes are called A, B, C, ... anew in every session
+            def named_cplx(spec):
+                c = cplx(spec, name="ABCDEFGHIJKLMNOP"[len(cn) % 16] + ("" if len(cn) < 16 else str(len(cn))))
+                cn[c.name] = c
+                return c
+            for n, (spec, name, k, _use) in enumerate(sess):
+                try:
+                    if kind == "complex":
+                        seq, struct, _k = spec
+                        ds = [dom(x) if x != "+" else "+" for x in seq]
+                        o = CPLX[k](ds, list(struct), name=name) if name else CPLX[k](ds, list(struct))
+                        key = ckey(o)
+                    elif kind == "macrostate":
+                        members = [named_cplx(c) for c in spec[0]]
+                        if isinstance(name, int):       # called after its n-th member (the caller's choice of a representative)
+                            name = members[name % len(members)].name
+                        o = MAC[k](members, name=name) if name else MAC[k](members)
+                        key = mkey(o)
+                    else:
+                        kk = kind[-1]
+                        mk = named_cplx if kk == "c" else macro
+                        re, pr, rtype = spec[0], spec[1], spec[2]
+                        o = RXN[k]([mk(x) for x in re], [mk(x) for x in pr], rtype, name=name)
+                        key = rkey(o, kk)
+                except bc.SingletonError as e:
+                    if e.existing is None:
+                        continue                        # the name is taken in this registry: not a case
+                    o = e.existing
+                    key = ckey(o) if kind == "complex" else mkey(o) if kind == "macrostate" else rkey(o, kind[-1])
+                except (bc.ObjectInitError, AssertionError):
+                    continue
+                objs.append(o); keys.append(key); incl.append(n)
+            used = set()
+            for o, n in zip(objs, incl):
+                if sess[n][3]:
+                    used.add(o)                         # the object is in use as a set member / dictionary key
+            m = len(objs)
+            rel = [[None] * m for _ in range(m)]
+            for i in range(m):
+                for j in range(m):
+                    x, y = objs[i], objs[j]
+                    rel[i][j] = [x == y, x != y, x <= y, x >= y, hash(x) == hash(y), y in {x}, len({x, y}), {x: 1}.get(y, 0) == 1]
+            return [keys, [o.name for o in objs], incl, rel]
+        out = []
+        for sess in sessions:
+            out.append(session(sess))                   # all references of the session die with its frame
+            gc.collect()
+        fresh()
+        return out
+
     @op("c10_readonly")
     def _(arg):
         kind, spec = arg
